@@ -52,6 +52,15 @@ func LoadFile(path string) (*File, error) {
 	}
 
 	err = yaml.Unmarshal(b, r)
+	// An empty list item (for instance a file cut off right after "- ") decodes to a
+	// nil entry, which none of the readers of Repositories expect.
+	entries := r.Repositories[:0]
+	for _, e := range r.Repositories {
+		if e != nil {
+			entries = append(entries, e)
+		}
+	}
+	r.Repositories = entries
 	return r, err
 }
 
